@@ -317,3 +317,14 @@ Definition chk_storehist : P (list Z) :=
   ret (strun {| sh_model := open_store p hv ht hm limit cthr [] 0; sh_spec := spec0; sh_durable := spec0;
                 sh_added := []; sh_known := []; sh_cfg := (p, (hv, ht, hm), (limit, cthr)); sh_session := 1;
                 sh_spec_session := []; sh_crashed := false; sh_corrupt := false; sh_i := 0; sh_weak := 0; sh_found := [] |} ops).
+
+(** 801: the persistent store over an HNSW vector template (HNSW's exact regime) against the store over
+    a flat template: same directory-level history (adds, rotations, flushes, close / reopen with fresh
+    templates), same searches; number of compared searches, number answered differently, number of
+    operations whose success differed.  C08 / C09 quantify over the template kinds flat / hnsw / ivf: what
+    holds or fails for the flat template (the listed findings included, which do not depend on the
+    kind) must hold or fail in the same way for an HNSW template that answers exactly. *)
+Definition chk_store_hnsw : P (list Z) :=
+  n <- pz ;; diffs <- pz ;; opdiffs <- pz ;;
+  let ok := (diffs =? 0) && (opdiffs =? 0) in
+  ret (verdict ok ok [diffs; opdiffs]).
